@@ -36,6 +36,7 @@ DEFAULT_PROFILE: Dict[str, Any] = {
     "hist_under_parallel": True,
     "final": True,
     "final_under_root": True,
+    "p_composite_guard": 0,
     "parallel": True,
     "after": False,
     "invoke": False,
@@ -172,7 +173,17 @@ def _gen_guard(d: D, prof, spec) -> Optional[dict]:
             else:
                 vals.append(r >= 4)
         spec["tables"][name] = vals
-    return {"k": "tab", "name": name}
+    g = {"k": "tab", "name": name}
+    if prof.get("p_composite_guard") and d.chance(prof["p_composite_guard"]):
+        # same composite kind on several candidates of one list, different operands
+        kind = d.pick(["not", "and", "or"])
+        if kind == "not":
+            return {"k": "not", "arg": g}
+        other = "g" + str(d.int(0, 4))
+        if other not in spec["tables"]:
+            spec["tables"][other] = [d.int(0, 9) >= 4 for _ in range(4)]
+        return {"k": kind, "args": [g, {"k": "tab", "name": other}]}
+    return g
 
 
 def _gen_actions(d: D, prof, spec, raise_pool: List[str], depth=0) -> List[dict]:
